@@ -414,6 +414,7 @@ fn deallocate_list(to_deallocate_list: LinkedList, state: &State) {
     }
 
     let _dropping_guard = replace_state_field!(dropping, true, state);
+    let _dropping_list_guard = replace_state_field!(dropping_list, true, state);
 
     // Redefine to_deallocate_list with the ToDropList wrapper
     let to_deallocate_list = ToDropList {
